@@ -91,6 +91,12 @@ class Fns(object):
             return
         self.nest_hook(layer["_i"], where)
 
+    def _user_window(self, kind, i, x):
+        """Mapping functions are pre-emptible user code: a trigger for client operations that want
+        to land while one is executing, and a yield point."""
+        self.env.hit("fn-enter")
+        self.env.sim.yield_point("user-fn")
+
     def map_fn(self, layer):
         env = self.env
         i = layer["_i"]
@@ -98,10 +104,14 @@ class Fns(object):
         def fn(x):
             b = beh(layer, "fn", x)
             env.rec("ufn", "map", i, desc(x), b)
-            self._nest(layer, "map", x)
-            if b == "raise":
-                raise env.exc(("map", i, x))
-            return ("m", i, x)
+            self._user_window("map", i, x)
+            try:
+                self._nest(layer, "map", x)
+                if b == "raise":
+                    raise env.exc(("map", i, x))
+                return ("m", i, x)
+            finally:
+                env.rec("ufn-end", "map", i, sub_of(x))
         return fn
 
     def err_fn(self, layer):
@@ -127,16 +137,20 @@ class Fns(object):
         def fn(x):
             b = beh(layer, "fn", x)
             env.rec("ufn", "flat", i, desc(x), b)
-            self._nest(layer, "flat", x)
-            if b == "raise":
-                raise env.exc(("flat", i, x))
-            if b == "nonfuture":
-                return ("nf", i, x)
-            if b == "retexc":
-                return f_return_error(env.exc(("flatexc", i, x)))
-            if b == "aux" and self.aux is not None:
-                return self.aux.submit(lambda: ("fm", i, x))
-            return f_return(("fm", i, x))
+            self._user_window("flat", i, x)
+            try:
+                self._nest(layer, "flat", x)
+                if b == "raise":
+                    raise env.exc(("flat", i, x))
+                if b == "nonfuture":
+                    return ("nf", i, x)
+                if b == "retexc":
+                    return f_return_error(env.exc(("flatexc", i, x)))
+                if b == "aux" and self.aux is not None:
+                    return self.aux.submit(lambda: ("fm", i, x))
+                return f_return(("fm", i, x))
+            finally:
+                env.rec("ufn-end", "flat", i, sub_of(x))
         return fn
 
     def flat_err_fn(self, layer):
